@@ -10,7 +10,20 @@ PROFILES = [("ack", 1.0)]
 MONITORS = ["C11", "C03", "C17", "PANIC"]
 
 
+def with_values(rng, cid0):
+    """ack-lock histories whose requests carry value operations (rollback of the value on a failed acknowledgement)"""
+    from checks import C15
+    import engine_corr as ec
+    g = ec.Gen(rng, "ack", with_data=C15.with_data)
+    n = 150 if len(CASES_TIER) == 0 or CASES_TIER[0] == "quick" else 6000
+    return [g.case(cid0 + i, drain=True) for i in range(n)]
+
+
+CASES_TIER = []
+
+
 def run(ctx):
     if getattr(ctx, "replay", None):
         return _engine.replay(ctx, "C11", MONITORS)
-    return _engine.run_engine_check(ctx, "C11", PROFILES, MONITORS, n_quick=500, n_thorough=20000)
+    CASES_TIER[:] = [ctx.tier]
+    return _engine.run_engine_check(ctx, "C11", PROFILES, MONITORS, n_quick=500, n_thorough=20000, extra_cases=with_values)
